@@ -13,6 +13,7 @@
 import AHP.Props.C14
 import AHP.Props.C15
 import AHP.Props.TreeModels
+import AHP.Lemmas.TreeModelsNth
 namespace AHP.XPathEndToEnd
 open AHP AHP.XPath AHP.Cache
 
@@ -94,6 +95,34 @@ theorem entry_points_on_any_tree (st : Style) (t : TM.HN) (ss : List (SurfStep N
         e.run (compileText nm) nm t.toDoc ms (renderExpr st ss) = specEval nm t.toDoc (ss.map SurfStep.toSStep) ms)
     | none => ∃ s ∈ ss, ∃ p ∈ s.preds, ∀ c, evalP nm c p.toP = none :=
   C14.entry_points_denote nm st t.toDoc (TreeModels.toDoc_isPreOrder t).2 ss hs hw
+
+/-- **"the n-th among their same-named siblings", read off the TREE.**  For every tree `t`, every element of it (an entry
+    `e` of the document-order walk) and every way of writing its blocks as `pre ++ x :: post` with `x` an element: `x` sits
+    in row `e.pos + 1 + sizeL pre` of `t.toDoc`, and a predicate whose value is the number `n` keeps `x` exactly when `n` is
+    one more than the number of element blocks in `pre` that carry `x`'s tag name (`TM.namedBefore`) — no table, no
+    `Doc.ctx`, no `isNth`: the parent's blocks and their tag names only.  (`LawfulNum`: AHP/Lemmas/XPathNum.lean.) -/
+theorem nth_on_any_tree (hl : LawfulNum nm) (t : TM.HN) {e : TM.Ent} (he : e ∈ t.walk [] 0)
+    (pre : List TM.HN) (x : TM.HN) (post : List TM.HN) (hk : e.node.kids = pre ++ x :: post) (hx : x.isEl = true) (n : Nat) :
+    keepTag nm t.toDoc (e.pos + 1 + TM.sizeL pre) (.num (nm.ofNat n)) = some (decide (TM.namedBefore x.name pre + 1 = n)) ∧
+    specPos t.toDoc (e.pos + 1 + TM.sizeL pre) = TM.namedBefore x.name pre + 1 := by
+  have h := (TM.toDoc_specPos t he pre x post hk hx).2.2
+  refine ⟨?_, h⟩
+  rw [C14.numeric_value_keeps_nth nm hl, ← h]
+  rfl
+
+/-- `<ul><li/>x<b/><li/></ul>`: the second `<li>` (row 3) is the 2nd among its same-named siblings — from the blocks
+    (one `<li>` among the three blocks before it) and from the table -/
+def listTree : TM.HN :=
+  .el 0 "ul".toList AttrState.empty false
+    [.el 1 "li".toList AttrState.empty false [], .text "x".toList, .el 2 "b".toList AttrState.empty false [],
+     .el 3 "li".toList AttrState.empty false []]
+
+example :
+    TM.namedBefore "li".toList [.el 1 "li".toList AttrState.empty false [], .text "x".toList,
+      .el 2 "b".toList AttrState.empty false []] + 1 = 2 ∧
+    specPos listTree.toDoc 3 = 2 ∧ (listTree.toDoc).map (fun r => (r.name, r.parent)) =
+      [("ul".toList, none), ("li".toList, some 0), ("b".toList, some 0), ("li".toList, some 0)] := by
+  refine ⟨by decide, by decide +kernel, by decide +kernel⟩
 
 /-- Non-vacuity of the tree versions: the table of `TreeModels.sampleHub` (`<div><p/><br/></div>`-shaped) -/
 example : (TreeModels.sampleHub.toDoc).map (fun r => (r.name, r.parent)) =
